@@ -161,14 +161,14 @@ def proof_stage(pid, tier, extra_targets=()):
             info["problems"].append(f"{name} depends on non-allowlisted axioms {notok}")
         else:
             discharged += 1
-    lock = json.loads((ROOT / "statements.lock").read_text()) if (ROOT / "statements.lock").exists() else {}
-    pinned = lock.get(pid, {})
+    lf = ROOT / "locks" / f"{pid}.json"
+    pinned = json.loads(lf.read_text()) if lf.exists() else {}
     for name, h in pinned.items():
         if hashes.get(name) != h:
-            info["problems"].append(f"statement of {name} differs from statements.lock (or theorem removed)")
+            info["problems"].append(f"statement of {name} differs from locks/{pid}.json (or theorem removed)")
     for name in hashes:
         if name not in pinned:
-            info["problems"].append(f"theorem {name} not pinned in statements.lock (run ./check --relock)")
+            info["problems"].append(f"theorem {name} not pinned in locks/{pid}.json (run ./check --relock {pid})")
     info["discharged"] = discharged if not info["problems"] else min(discharged, max(0, len(theorems) - 1))
     info["ok"] = not info["problems"] and discharged == len(theorems) and len(theorems) > 0
     if tier == "thorough" and info["ok"]:
@@ -185,12 +185,13 @@ def proof_stage(pid, tier, extra_targets=()):
     return info
 
 
-def relock():
-    lock = {}
-    for f in sorted((COQ / "theories" / "Props").glob("C*.v")):
-        lock[f.stem] = statement_hashes(f)
-    (ROOT / "statements.lock").write_text(json.dumps(lock, indent=1, sort_keys=True) + "\n")
-    return lock
+def relock(pid):
+    """pin the statements of Props/<pid>.v (a deliberate act: run it only when a statement is meant to change)"""
+    f = COQ / "theories" / "Props" / f"{pid}.v"
+    (ROOT / "locks").mkdir(exist_ok=True)
+    h = statement_hashes(f)
+    (ROOT / "locks" / f"{pid}.json").write_text(json.dumps(h, indent=1, sort_keys=True) + "\n")
+    return h
 
 
 # ----------------------------------------------------------------------------- builds
